@@ -1083,7 +1083,10 @@ fn exec_bseq(w: &[&str], line: &str, ex: &mut Exec) -> String {
                     }
                     (Some(b), Some(_)) => {
                         if let Some(l) = limit.as_mut() {
-                            *l -= b.len() as u64;
+                            if b.len() as u64 > *l {
+                                ex.fail("C11:take-limit", format!("{line}: a read returned {} bytes through a remaining limit of {}", b.len(), *l));
+                            }
+                            *l = l.saturating_sub(b.len() as u64);
                         }
                         delivered.extend_from_slice(&b);
                         lent.clear();
